@@ -145,6 +145,92 @@ def gen_queries(g, h):
     return out
 
 
+def gen_range_hist(g, hid):
+    """A keyed table on which C13's hypotheses HOLD (INT key in column 0, scanned first, unique keys,
+    first keys recorded) laid out over several batches / blocks / row-sets, queried with key ranges
+    and key order: here the disk engine must agree with the memory engine."""
+    r = g.r
+    d = sg.TableDef("t0", [("a", "INT", True, True), ("b", "INT", False, False)] +
+                    ([("c", "STRING", False, False)] if r.random() < 0.4 else []))
+    opts = (r.choice([256 << 20, 1 << 20, 16384]), r.choice([32, 64, 128, 1024, 16384]), r.choice([0, 1]), 1)
+    g.count("range-region:block=%d" % opts[1])
+    steps = [{"k": "create", "def": d, "sql": d.sql()}]
+    queries = []
+    used = set()
+    pool = list(range(-3000, 60000))
+
+    def ins(n):
+        ks = []
+        while len(ks) < n:
+            k = r.choice(pool)
+            if k not in used:
+                used.add(k)
+                ks.append(k)
+        rows = [tuple([k] + [g.gen_val(c[1], c[2]) for c in d.cols[1:]]) for k in ks]
+        sql = "insert into t0 values %s" % ", ".join(
+            "(" + ", ".join(sg.sql_lit(v, c[1]) for v, c in zip(row, d.cols)) + ")" for row in rows)
+        return {"k": "insert", "table": "t0", "rows": rows, "def": d, "sql": sql}
+
+    def ask():
+        k = len(steps) - 1
+        keys = sorted(used)
+        for _ in range(r.randint(3, 6)):
+            c = r.choice([r.choice(keys), r.choice(keys) + 1, keys[0] - 1, keys[-1] + 1, keys[len(keys) // 2],
+                          keys[(3 * len(keys)) // 4], keys[-1], keys[0]])
+            op = r.choice(["<", "<=", "=", ">", ">=", ">", ">="])
+            cols = [x[0] for x in d.cols]
+            queries.append((k, "select %s from t0 where a %s %d" % (", ".join(cols), op, c), "pkrange", None))
+            g.count("query:pkrange-region")
+        if r.random() < 0.5:
+            queries.append((k, "select a, b from t0 order by a", "pkord", None))
+        if r.random() < 0.3:
+            lo, hi = sorted([r.choice(keys), r.choice(keys)])
+            queries.append((k, "select a from t0 where a >= %d and a < %d" % (lo, hi), "pkrange", None))
+
+    steps.append(ins(r.choice([40, 300, 700, 1100, 2300])))
+    ask()
+    for _ in range(r.randint(1, 4)):
+        x = r.random()
+        if x < 0.35:
+            steps.append(ins(r.choice([5, 60, 300, 1100])))
+        elif x < 0.6:
+            p = g.gen_pred(d, 1)
+            ps = sg.pred_sql(p, d)
+            steps.append({"k": "delete", "table": "t0", "pred": p, "def": d,
+                          "sql": "delete from t0" + ("" if ps is None else " where " + ps)})
+        elif x < 0.8:
+            steps.append({"k": "compact"})
+        else:
+            steps.append({"k": "reopen"})
+        ask()
+    h = sg.make_hist(hid, opts, NAMES, steps)
+    h["queries"] = queries
+    return h
+
+
+def table_facts(i, orc, t, opts):
+    """what is known about the table a query reads: key type, duplicate / NULL keys, number of live
+    row-sets, whether first keys are recorded"""
+    d, rows = orc.tables[t]
+    keys = [x[0] for x in rows]
+    tid = [e.split(":")[0] for e in i.get("cat", "").split() if e.split(":")[1] == t]
+    nrs = len([x for x in i.get("rs", "").split() if tid and x.split(".")[0] == tid[0]])
+    return {"key_type": d.cols[0][1], "dup_keys": len(set(keys)) < len(keys), "null_keys": any(k is None for k in keys),
+            "rowsets": nrs, "first_keys": bool(opts[3])}
+
+
+def same_result(kind, x, y):
+    cx, rx = parse_result(x)
+    cy, ry = parse_result(y)
+    if cx != cy:
+        return False
+    if rx is None:
+        return True
+    if sorted(rx) != sorted(ry):
+        return False
+    return kind not in ("ord", "pkord") or [v[0] for v in rx] == [v[0] for v in ry]
+
+
 ROW_RE = re.compile(r"\(([^)]*)\)")
 
 
@@ -155,7 +241,7 @@ def parse_result(txt):
 
 
 def run(ck):
-    n = 800 if ck.quick() else 2500
+    n = 600 if ck.quick() else 2500
     bad = vlib.step_lean(ck, "RlModel.Thm.C05", THEOREMS, extra_targets=["drv_c05"])
     ok, log = vlib.step_cargo(ck, ["c05"])
     if not ok:
@@ -164,6 +250,14 @@ def run(ck):
     g = Gen5(ck.seed * 15485863 + 5, "c05")
     hists = []
     for i in range(n):
+        if i % 8 == 3:
+            h = gen_range_hist(g, i)
+            qs = h["queries"]
+            qsexp = "(queries %s)" % " ".join("(%d %s)" % (q[0], sg.hexs(q[1])) for q in qs)
+            head, sep, tail = h["line"].partition(") (create ")
+            h["line"] = head + ") " + qsexp + " (create " + tail
+            hists.append(h)
+            continue
         g.null_in_nn = 0.04 if i % 2 else 0.0
         h = g.history(i, nsteps=g.r.randint(6, 20), weights=WEIGHTS, bulk=(i % 10 == 0), followup=False)
         h = inject_insert_select(g, h)
@@ -210,14 +304,15 @@ def run(ck):
             T["io"] += 1
             bad_here = None
             empty_chunk = False
-            if s.get("insert_select") and not s["rows"] and i["out"] == "ok:?" and i.get("mout") == "ok:0":
+            if s.get("insert_select") and i["out"] == "ok:?" and i.get("mout", "").startswith("ok:") and i.get("mout") != "ok:?":
                 # the disk INSERT task panicked ("empty rowset", rowset_writer.rs) on a chunk of zero
                 # rows: the statement comes back Ok with no count row; the memory engine reports 0
                 empty_chunk = True
                 T["empty_chunk_inserts"] = T.get("empty_chunk_inserts", 0) + 1
                 ck.report("engines:insert-empty-chunk-disk-panic",
-                          "`%s` (no row qualifies): memory engine returns the count 0, the disk engine returns an empty result "
-                          "(its insert task panics with `empty rowset` while flushing a zero-row mem-rowset; nothing is committed, a row-set id and an empty directory are leaked)" % s["sql"][:120],
+                          "`%s`: memory engine returns the count (%s), the disk engine returns Ok with NO count row and commits nothing "
+                          "(its insert task panics with `empty rowset` while flushing a mem-rowset that received only zero-row chunks - a source row-set whose rows are all filtered out; "
+                          "row-set ids and directories are leaked, and when other chunks did carry rows those rows are lost)" % (s["sql"][:120], i.get("mout")),
                           replay=rp)
             if s["k"] in ("create", "drop", "view", "index", "insert", "delete") and not empty_chunk:
                 if i.get("mout") != i["out"]:
@@ -229,40 +324,86 @@ def run(ck):
                 if not q:
                     continue
                 qi, _, rest = q.partition(":")
-                a, _, b = rest.partition("~~")
+                parts = rest.split("~~")
+                a, b = parts[0], parts[1]
+                noopt, plan_m, plan_d = (parts + ["", "", ""])[2:5]
                 _, sql, kind, meta = h["queries"][int(qi)]
                 ca, ra = parse_result(a)
-                cb, rb = parse_result(b)
                 tagged = kind in ("pkord", "pkrange")
                 T["tagged" if tagged else "queries"] += 1
-                okq = ca == cb
-                if okq and ra is not None:
-                    okq = sorted(ra) == sorted(rb)
-                    if okq and kind in ("ord", "pkord"):
-                        okq = [x[0] for x in ra] == [x[0] for x in rb]
-                    if ra:
-                        T["q_nontrivial"] += 1
-                        distinct.add(sql + "|" + str(sorted(ra))[:200])
-                if not okq:
+                okq = same_result(kind, a, b)
+                if ra:
+                    T["q_nontrivial"] += 1
+                    distinct.add(sql + "|" + str(sorted(ra))[:200])
+                if okq:
+                    continue
+                qrp = dict(rp, query=sql, memory=a[:2000], disk=b[:2000], disk_optimizer_off=noopt[:2000],
+                           plan_memory=plan_m[:600], plan_disk=plan_d[:600])
+                # ---- attribution: a recorded mechanism must apply to THIS query on THIS layout, and the
+                # disk engine must agree with the memory engine once the planner switch is taken away
+                # (optimizer off): otherwise the difference is a violation of C05 in its own right
+                noopt_ok = bool(noopt) and same_result(kind, a, noopt)
+                t = sql.split(" from ")[1].split()[0] if " from " in sql else None
+                facts = table_facts(i, orc, t, h["opts"]) if t in orc.tables else {}
+                qrp["table_facts"] = facts
+                if "null-in-nonnull-column" in tags:
+                    bad_here = bad_here or ("query `%s`" % sql, a[:200], b[:200])
+                elif kind == "pkord":
+                    cb, rb = parse_result(b)
+                    if noopt_ok and ra is not None and rb is not None and sorted(ra) == sorted(rb) and facts.get("rowsets", 0) >= 2:
+                        T["tagged_bad"] += 1
+                        ck.report("engines:pk-order-scan(C12)",
+                                  "query `%s`: same rows, different key order (memory %s..., disk %s...); the table has %d row-sets and the disk plan drops the sort "
+                                  "(with the optimizer off the disk engine agrees) - C12's mechanism" % (sql, a[:80], b[:80], facts["rowsets"]), replay=qrp)
+                    else:
+                        ck.report("engines:query:pk-order", "query `%s` differs between engines and C12's mechanism (>= 2 row-sets, rows equal as a bag, "
+                                  "agreement with the optimizer off) does not apply: memory %s, disk %s, disk/optimizer off %s, facts %s" % (
+                                      sql, a[:160], b[:160], noopt[:160], facts), replay=qrp)
+                        T["io_bad"] += 1
+                elif kind == "pkrange":
+                    mech = []
+                    if facts.get("key_type") != "INT":
+                        mech.append("key type %s is not decoded by start_rowid / the filter (non-i32 key)" % facts.get("key_type"))
+                    if facts.get("dup_keys"):
+                        mech.append("duplicate key values (the start-row rule skips a block whose first key equals the bound)")
+                    if facts.get("null_keys"):
+                        mech.append("NULL keys")
+                    if not facts.get("first_keys", True):
+                        mech.append("first keys are not recorded (record_first_key = false), which the range-scan rule requires")
+                    if noopt_ok and mech:
+                        T["tagged_bad"] += 1
+                        ck.report("engines:pk-range-scan(C13)",
+                                  "query `%s` differs between engines: memory %s, disk %s; with the optimizer off the disk engine agrees; applicable C13 mechanism: %s" % (
+                                      sql, a[:120], b[:120], "; ".join(mech)), replay=qrp)
+                    else:
+                        ck.report("engines:query:pk-range", "query `%s` differs between engines although C13's hypotheses hold for this table (%s): memory %s, disk %s, disk/optimizer off %s" % (
+                            sql, facts, a[:160], b[:160], noopt[:160]), replay=qrp)
+                        T["io_bad"] += 1
+                elif kind == "join":
                     null_keys = False
-                    if kind == "join" and meta and meta[0] in orc.tables and meta[2] in orc.tables:
+                    if meta and meta[0] in orc.tables and meta[2] in orc.tables:
                         null_keys = any(r_[meta[1]] is None for r_ in orc.tables[meta[0]][1]) and \
                             any(r_[meta[3]] is None for r_ in orc.tables[meta[2]][1])
-                    if null_keys:
+                    hm, hd = "HashJoin" in plan_m, "HashJoin" in plan_d
+                    cb, rb = parse_result(b)
+
+                    def weight(res):
+                        if res is None:
+                            return -1
+                        if len(res) == 1 and len(res[0]) == 1 and res[0][0].startswith("i32:"):
+                            return int(res[0][0][4:])
+                        return len(res)
+                    more_on_hash = (hm and not hd and weight(ra) > weight(rb)) or (hd and not hm and weight(rb) > weight(ra))
+                    if null_keys and more_on_hash:
                         T["join_null_key"] = T.get("join_null_key", 0) + 1
                         ck.report("engines:join-null-key(C11)",
-                                  "query `%s` differs between engines: memory %s, disk %s (both join columns hold NULLs; the optimizer picks different join "
-                                  "operators for the two engines because only the disk engine has statistics, and the hash join matches NULL keys: C11/C02's finding)" % (sql, a[:160], b[:160]),
-                                  replay=dict(rp, query=sql))
-                    elif "null-in-nonnull-column" in tags:
-                        bad_here = bad_here or ("query `%s`" % sql, a[:200], b[:200])
-                    elif tagged:
-                        T["tagged_bad"] += 1
-                        ck.report("engines:%s" % ("pk-order-scan(C12)" if kind == "pkord" else "pk-range-scan(C13)"),
-                                  "query `%s` differs between engines: memory %s, disk %s (plan depends on the disk-only planner switch)" % (sql, a[:200], b[:200]),
-                                  replay=dict(rp, query=sql))
+                                  "query `%s` differs between engines: memory %s, disk %s; both join columns hold NULLs, exactly one engine's plan has a HashJoin "
+                                  "(memory: %s, disk: %s) and that engine returns the extra NULL = NULL matches - C11/C02's operator defect reached through plan choice" % (
+                                      sql, a[:120], b[:120], hm, hd), replay=qrp)
                     else:
-                        bad_here = bad_here or ("query `%s`" % sql, a[:200], b[:200])
+                        bad_here = bad_here or ("query `%s` (join; NULL keys on both sides: %s; HashJoin in memory plan: %s, in disk plan: %s)" % (sql, null_keys, hm, hd), a[:200], b[:200])
+                else:
+                    bad_here = bad_here or ("query `%s`" % sql, a[:200], b[:200])
             if bad_here:
                 T["io_bad"] += 1
                 predicted = sg.canon_tabs(m.get("tabs", "")) == sg.canon_tabs(i.get("tabs", "")) and \
